@@ -19,7 +19,7 @@ THEOREMS = ["outside_the_engine_the_glue_only_waits", "delivery_needs_engine_dat
             "query_requests_write_only_for_handshake", "suppressed_write_poll_is_restored", "idle_client_requests_write",
             "pending_only_advances_the_handshake", "send_only_writes", "receive_only_reads", "unlimited_receive_never_nothing",
             "send_io_inside_engine", "receive_io_inside_engine", "driver_paths_io_inside_engine",
-            "receive_now_keeps_the_interest", "send_some_keeps_the_interest", "pending_keeps_the_interest", "known_interest_is_polled", "tls_send_complete", "read_steps_suffice_refuted"]
+            "receive_now_keeps_the_interest", "send_some_keeps_the_interest", "pending_keeps_the_interest", "known_interest_is_polled", "tls_send_complete", "read_steps_suffice_refuted", "driver_receive_drains_the_engine"]
 
 CH, SF, CF, ST, OVH, CLOSE_NOTIFY = 120, 900, 60, 260, 22, 24
 E_SSL, E_WANT_READ, E_WANT_WRITE, E_SYSCALL, E_ZERO = 1, 2, 3, 5, 6
@@ -118,6 +118,20 @@ class World:
         if p["close"] and p["peer"] == "tls":
             self.stream.append(("close", CLOSE_NOTIFY, 0, self.stream[-1][3]))
 
+    def undelivered_plain(self):
+        """application bytes of records the engine has read completely from the wire but not handed out yet (SSL_pending)"""
+        steps, post_r, post_w = self.hs_remaining()
+        if steps or self.p["peer"] != "tls":
+            return 0
+        r, total = post_r, 0
+        for what, n, pay, need in [x for x in self.stream if x[0] in ("ticket", "app", "close")]:
+            if r >= n:
+                r -= n
+                total += pay
+            else:
+                break
+        return total - self.delivered
+
     def available(self):
         tot = 0
         for what, n, pay, need in self.stream:
@@ -204,7 +218,7 @@ def engine_chooser(c, a, tr, rnd):
             break
     buffered = buffered_total - W.delivered
     if not steps and buffered > 0:
-        return [call, 0, min(size, buffered), 0, 1]
+        return [call, 0, min(size, buffered), 0, 1, 1 if buffered > size else 0]       # last field: SSL_pending() > 0 afterwards
     # read records until an application record (or close_notify) is complete
     more = []
     res = None
@@ -213,7 +227,7 @@ def engine_chooser(c, a, tr, rnd):
         more += [1, cur_rem if first else n]
         first = False
         if what == "app":
-            res = [min(size, pay), 0, 1]
+            res = [min(size, pay), 0, 1, 1 if pay > size else 0]
             break
         if what == "close":
             res = [0, E_ZERO, 1]
@@ -509,6 +523,18 @@ def monitor(c, tr):
     fd = tls_fd(tr)
     if fd is None:
         return None
+    if p["level"] == "async" and p["peer"] == "tls" and not p["fatal"]:
+        # F14: when a driver step returns, nothing that the engine has already decrypted may be left inside it — no poll event
+        # will ever announce it (it has left the kernel)
+        gone = False
+        for i, (k, a) in enumerate(tr):
+            if (k == 21 and a[0] == 2) or (k == 20 and a[0] in (28, 1028) and a[2:3] == [1]) or (k == 40 and a[3] in (E_SSL, E_SYSCALL, E_ZERO)):
+                gone = True
+            if k == 20 and a[0] in (41, 1041) and a[1] == 1 and not gone:
+                left = World(c, tr[:i + 1]).undelivered_plain()
+                if left > 0:
+                    return ("the driver step returned while %d byte(s) of an already decrypted record were still inside the TLS engine: no poll event will "
+                            "announce them, the receive handler gets them only when (if) the peer sends something else" % left)
     st = stalled(c, tr)
     if st:
         if st[1] == 0 and p["role"] == "cli":
@@ -650,7 +676,8 @@ def real_openssl_stage(rep, tier, seed):
                 return []
         runs = []
         for name, argsets in (("f8_pending_data_demo", [["0", "2"], ["1", "1"], ["1", "2"], ["2", "2"]]), ("f9_idle_client_demo", [[]]),
-                              ("f10_large_send_demo", [["147457"], ["1000000"]]), ("f12_async_large_buffer_demo", [["100000", "60"]])):
+                              ("f10_large_send_demo", [["147457"], ["1000000"]]), ("f12_async_large_buffer_demo", [["100000", "60"]]),
+                              ("f14_record_larger_than_buffer_demo", [["5000", "512"], ["16000", "2048"]]), ("f16_error_queue_demo", [[]])):
             exe = os.path.join(libdir, name)
             src = os.path.join(VERIF, "corpus", "real_openssl", name + ".cpp")
             if not os.path.exists(exe) or os.path.getmtime(exe) < os.path.getmtime(src):
@@ -684,7 +711,7 @@ def real_openssl_stage(rep, tier, seed):
 def corpus():
     import os
     out = []
-    for name in ("C18_pending_data.txt", "C18_idle_client.txt", "C18_large_send.txt", "C18_large_send_async.txt", "C18_stale_view.txt"):
+    for name in ("C18_pending_data.txt", "C18_idle_client.txt", "C18_large_send.txt", "C18_large_send_async.txt", "C18_stale_view.txt", "C18_record_larger_than_buffer.txt"):
         f = os.path.join(VERIF, "corpus", name)
         if os.path.exists(f):
             out += parse_cases(open(f).read())
